@@ -188,6 +188,9 @@ def b_bool(eng, st, args, kwargs, node):
 
 def b_int(eng, st, args, kwargs, node):
     (v,) = args
+    if isinstance(v, Z) and v.kind == "int" and v.tag == "number":
+        # a number of unknown type (the value of a user expression, possibly a float): int() truncates -- not the identity
+        return [(st, Z("int", z3.Function("py_int_of_number", INT, INT)(v.t)))]
     if isinstance(v, Z) and v.kind == "int":
         return [(st, v)]
     if isinstance(v, Z) and v.kind == "str":
